@@ -159,8 +159,38 @@ pub fn special_other(c: &mut Ctx, b: &Budget, prop: &str) {
             let orig = match c.env(&r) { Some(e) => e, None => continue };
             let _ = round;
             match prop {
+                "C02" => {
+                    let n = hex::encode(c.rng.bytes(12));
+                    for op in [format!("compress_subject {}", r), format!("encrypt_subject {} {} {}", r, KEY1, n), format!("compress {}", r), format!("elide {}", r)] {
+                        let v = c.assign(&op);
+                        c.no_panic(&v, "obscuring");
+                        let opn = op.split(' ').next().unwrap().to_string();
+                        match c.env(&v) {
+                            Some(ve) => { c.obs(&format!("shape {}", v)); let pv = crate::props::check_positions(&orig, &ve); c.check("digests-preserved", pv.is_ok(), "digests-preserved", || format!("{} on {}: {}", opn, name, pv.unwrap_err())); }
+                            None => {
+                                // a refusal needs a reason the documentation gives: an encrypted or elided subject (element) cannot be encrypted or compressed; nothing else is refused
+                                let s0 = orig.subject();
+                                let reason = match opn.as_str() { "encrypt_subject" | "compress_subject" => s0.is_encrypted() || s0.is_elided(), "compress" => orig.is_encrypted() || orig.is_elided(), _ => false };
+                                let shown = c.val(&v).show();
+                                c.check("obscuring-refusal-justified", reason, "obscuring-refused", || format!("{} refused on {} ({}): {}", opn, name, shape(&orig), &shown[..shown.len().min(120)]));
+                            }
+                        }
+                    }
+                }
                 "C01" => { observe(c, &r); let v = check_spec_digests(&orig); c.check("spec-digest", v.is_ok(), "spec-digest", || format!("{}: {}", name, v.unwrap_err())); }
-                "C04" => { observe(c, &r); let v = check_grammar(&orig); c.check("grammar", v.is_ok(), "grammar", || format!("{}: {}", name, v.unwrap_err())); }
+                "C04" => {
+                    observe(c, &r); let v = check_grammar(&orig); c.check("grammar", v.is_ok(), "grammar", || format!("{}: {}", name, v.unwrap_err()));
+                    // editing a special shape: every one of its assertion elements removed in turn, one added, its subject replaced - each result well formed
+                    let n_assertions = orig.assertions().len().min(6);
+                    let fresh = gen_assertion(c, &GenCfg::default(), 0); let fresh_subject = gen_leaf(c, &GenCfg::default());
+                    let mut edits: Vec<String> = (0..n_assertions).map(|k| { let a = c.assign(&format!("at {} a{}", r, k)); format!("remove {} {}", r, a) }).collect();
+                    edits.push(format!("add {} {}", r, fresh)); edits.push(format!("replace_subject {} {}", r, fresh_subject));
+                    for op in edits {
+                        let v = c.assign(&op);
+                        c.no_panic(&v, "editing");
+                        if let Some(ve) = c.env(&v) { c.obs(&format!("shape {}", v)); let g = check_grammar(&ve); let opn = op.split(' ').next().unwrap().to_string(); c.check("grammar", g.is_ok(), "grammar", || format!("{} on {}: {}: {} -> {}", opn, name, g.unwrap_err(), shape(&orig), shape(&ve))); }
+                    }
+                }
                 "C05" => crate::props::roundtrip(c, &r),
                 "C13" => {
                     for (op, back) in [("compress", "uncompress"), ("compress_subject", "uncompress_subject")] {
@@ -204,7 +234,9 @@ pub fn special_other(c: &mut Ctx, b: &Budget, prop: &str) {
 /// the same deep structures through the other operations that recurse over an envelope or decode one
 pub fn deep_other(c: &mut Ctx, b: &Budget, prop: &str) {
     let cfg = GenCfg::default();
-    for (k, d) in deep_depths(b.thorough).into_iter().enumerate() {
+    let mut depths = deep_depths(b.thorough);
+    if prop == "C10" { depths.extend([14usize, 27, 28, 29, 30, 31, 32, 33]); }      // around small powers of two as well: the encrypted forms add levels of their own
+    for (k, d) in depths.into_iter().enumerate() {
         c.begin("deep");
         let dp = gen_deep(c, d, k % 2 == 0);
         let orig = match c.env(&dp.top) { Some(e) => e, None => { c.end(); continue; } };
@@ -228,6 +260,17 @@ pub fn deep_other(c: &mut Ctx, b: &Budget, prop: &str) {
                 c.obs(&format!("eq {} {}", dp.top, wd));
                 let (okv, shown) = (c.env(&wd).map(|x| x.is_identical_to(&orig)).unwrap_or(false), c.val(&wd).show());
                 c.check("whole-roundtrip", okv, "whole-roundtrip", || format!("depth {}: decrypt(encrypt e) is not e: {}", d, &shown[..shown.len().min(120)]));
+            }
+            "C10" => {
+                // a deeply layered original through the public-key forms: what encryption can wrap, decryption can open
+                let (sk, pk) = bc_components::EncapsulationScheme::X25519.keypair();
+                let sender = bc_components::PrivateKeyBase::new();
+                let got = guarded(|| orig.encrypt_to_recipient(&pk).decrypt_to_recipient(&sk).ok());
+                c.check("encrypt-to-recipient-roundtrip", matches!(&got, Ok(Some(x)) if x.is_identical_to(&orig)), "encrypt-to-recipient-roundtrip", || format!("depth {}: the wrap-and-encrypt form does not return the original", d));
+                let got = guarded(|| orig.seal(&sender, &pk).unseal(&sender.schnorr_public_keys(), &sk).ok());
+                c.check("seal-unseal", matches!(&got, Ok(Some(x)) if x.is_identical_to(&orig)), "seal-unseal", || format!("depth {}: unseal(seal(e)) is not e", d));
+                let got = guarded(|| orig.encrypt_subject_to_recipient(&pk).and_then(|x| x.decrypt_subject_to_recipient(&sk)).ok());
+                c.check("recipient-opens", matches!(&got, Ok(Some(x)) if x.subject().is_identical_to(&orig.subject())), "recipient-opens", || format!("depth {}: subject form", d));
             }
             "C12" => {
                 let alld: HashSet<Digest> = elements(&orig).iter().map(|(_, x)| x.digest().into_owned()).collect();
@@ -993,9 +1036,36 @@ fn c14_churn(c: &mut Ctx, b: &Budget) {
     c.end();
 }
 
+/// the special shapes: each against its decoded copy and its obscured variants; a subject-level or targeted obscuring of an element that is
+/// present (not obscured one level down, whatever lies deeper) never returns an identical envelope
+fn c14_special(c: &mut Ctx, b: &Budget) {
+    for _ in 0..(if b.thorough { 6 } else { 2 }) {
+        c.begin("special-shapes");
+        for (name, r) in special_shapes(c) {
+            let orig = match c.env(&r) { Some(e) => e, None => continue };
+            let mut pool = vec![r.clone()];
+            let subj = c.assign(&format!("subject {}", r));
+            let subj_obscured = orig.subject().is_obscured();
+            for op in [format!("compress_subject {}", r), format!("elide_set {} rem elide {}", r, subj), format!("elide_set {} rem compress {}", r, subj), format!("compress {}", r), format!("elide {}", r)] {
+                let v = c.assign(&op);
+                if let Some(ve) = c.env(&v) {
+                    let whole = op.starts_with("compress r") || op.starts_with("compress ") && !op.starts_with("compress_subject") || op.starts_with("elide r") || (op.starts_with("elide ") && !op.starts_with("elide_set"));
+                    let target_present = if whole { !orig.is_obscured() } else { !subj_obscured };
+                    if target_present { c.check("obscuring-changes-identity", ve.is_equivalent_to(&orig) && !ve.is_identical_to(&orig), "obscured-equivalent-not-identical", || format!("{} on {}: {} -> {}", op.split(' ').next().unwrap(), name, shape(&orig), shape(&ve))); }
+                    pool.push(v);
+                }
+            }
+            pool.truncate(6);
+            c14_pool(c, &pool);
+        }
+        c.end();
+    }
+}
+
 /// C14 - equivalence and identity
 pub fn c14(c: &mut Ctx, b: &Budget) {
     let cfg = GenCfg::default();
+    c14_special(c, b);
     c14_churn(c, b);
     c14_deep(c, b);
     c14_leaves(c, b);
@@ -1134,6 +1204,36 @@ pub fn c15(c: &mut Ctx, b: &Budget) {
         let same = mine.len() == lib.len() && mine.iter().zip(lib.iter()).all(|(a, b)| a.0 == b.0 && a.1 == b.1 && a.2.digest() == b.2.digest() && case_name(&a.2) == case_name(&b.2));
         c.check("walk-structure", same, "walk-structure", || shape(&orig));
         c.check("elements-count", orig.elements_count() == mine.len(), "elements-count", || format!("{} vs {}", orig.elements_count(), mine.len()));
+        // the context each visit receives is the value the visitor returned for the element it hangs under - in both modes, compared
+        // with an independent traversal that hands its own visit index down
+        for hide in [false, true] {
+            let seen: std::cell::RefCell<Vec<(Digest, usize, Option<usize>)>> = std::cell::RefCell::new(vec![]);
+            let visitor = |x: Envelope, level: usize, _: EdgeType, parent: Option<usize>| -> Option<usize> { let mut v = seen.borrow_mut(); v.push((x.digest().into_owned(), level, parent)); Some(v.len() - 1) };
+            orig.walk(hide, &visitor);
+            let got = seen.into_inner();
+            let mut want: Vec<(Digest, usize, Option<usize>)> = vec![];
+            fn structure(e: &Envelope, level: usize, parent: Option<usize>, out: &mut Vec<(Digest, usize, Option<usize>)>) {
+                out.push((e.digest().into_owned(), level, parent)); let me = Some(out.len() - 1);
+                match e.case() {
+                    EnvelopeCase::Node { subject, assertions, .. } => { structure(subject, level + 1, me, out); for a in assertions { structure(a, level + 1, me, out); } }
+                    EnvelopeCase::Wrapped { envelope, .. } => structure(envelope, level + 1, me, out),
+                    EnvelopeCase::Assertion(a) => { structure(&a.predicate(), level + 1, me, out); structure(&a.object(), level + 1, me, out); }
+                    _ => {}
+                }
+            }
+            fn tree(e: &Envelope, level: usize, parent: Option<usize>, out: &mut Vec<(Digest, usize, Option<usize>)>) -> Option<usize> {
+                let (own, sub) = if e.is_node() { (parent, level) } else { out.push((e.digest().into_owned(), level, parent)); (Some(out.len() - 1), level + 1) };
+                match e.case() {
+                    EnvelopeCase::Node { subject, assertions, .. } => { let ap = tree(subject, sub, own, out); for a in assertions { tree(a, sub + 1, ap, out); } }
+                    EnvelopeCase::Wrapped { envelope, .. } => { tree(envelope, sub, own, out); }
+                    EnvelopeCase::Assertion(a) => { tree(&a.predicate(), sub, own, out); tree(&a.object(), sub, own, out); }
+                    _ => {}
+                }
+                own
+            }
+            if hide { tree(&orig, 0, None, &mut want); } else { structure(&orig, 0, None, &mut want); }
+            c.check("walk-parent-contexts", got == want, "walk-parent-contexts", || { let k = got.iter().zip(want.iter()).position(|(a, b2)| a != b2).unwrap_or(got.len().min(want.len())); format!("{} walk of {}: visit {} received (level, context) {:?}, expected {:?}", if hide { "tree" } else { "structure" }, shape(&orig), k, got.get(k).map(|x| (x.1, x.2)), want.get(k).map(|x| (x.1, x.2))) });
+        }
         let tree = walk_visits(&orig, true);
         let non_nodes = mine.iter().filter(|v| !v.2.is_node()).count();
         c.check("walk-tree-visits-non-nodes-once", tree.len() == non_nodes && tree.iter().all(|(x, _, _)| !x.is_node()), "walk-tree", || shape(&orig));
